@@ -167,7 +167,7 @@ def do_map(pipeline, desc: dict, inputs_py: dict, *, run_folder: str | None, sto
     fnames = F if F is not None else [fd["name"] for fd in desc["funcs"]]
     events = [ev(e="begin", F=fnames, cleanup=cleanup, fixed=fixed_resolved or [], fixedraw=fixed_raw or [],
                  cache=pipeline.cache is not None)]
-    start = len(build.LOG)
+    start = len(build.read_log())     # the cross-process log file when one is set, the in-process list otherwise
     buf = io.StringIO()
     try:
         with contextlib.redirect_stdout(buf):
